@@ -99,7 +99,7 @@ theorem addModDict_strip_modDict (a : Annotation) (app : Bool) :
   | some d =>
     cases d with
     | nil => cases a; simp_all
-    | cons p ps => cases a; cases app <;> simp_all [addInternal]
+    | cons p ps => cases a; cases app <;> simp_all [addInternalDict]
 
 theorem fixList_modsInput (l : List Mod) : fixList (modsInput l) = l := by
   simp [fixList, modsInput, convertToMod, Function.comp_def]
